@@ -448,3 +448,91 @@ func freezeTerm(p *PXPath, t *T, depth int) *T {
 	}
 	return nil
 }
+
+// globalFieldConst: field fld of the package-level variable name (a struct, or a pointer to a struct
+// built by &T{…}) holds, for the whole run, the constant its initialiser gives it: no function of
+// the package stores to that field of that struct type outside the package initialiser.
+func (c *Ctx) globalFieldConst(name, fld string) *T {
+	key := "globalFieldConst:" + name + "." + fld
+	if v, ok := c.extra(key); ok {
+		t, _ := v.(*T)
+		return t
+	}
+	var out *T
+	defer func() { c.setExtra(key, out) }()
+	if c.JenP == nil || c.Jen == nil {
+		return nil
+	}
+	g, ok := c.Jen.Members[name].(*ssa.Global)
+	if !ok {
+		return nil
+	}
+	e, _ := varInit(c.JenP, name)
+	if e == nil {
+		return nil
+	}
+	e = ast.Unparen(e)
+	if u, ok := e.(*ast.UnaryExpr); ok && u.Op == token.AND {
+		e = ast.Unparen(u.X)
+	}
+	cl, ok := e.(*ast.CompositeLit)
+	if !ok {
+		return nil
+	}
+	tv, ok := c.JenP.TypesInfo.Types[cl]
+	if !ok {
+		return nil
+	}
+	st, ok := tv.Type.Underlying().(*types.Struct)
+	if !ok {
+		return nil
+	}
+	// the variable itself is never re-assigned, and nobody stores to that field of that type
+	want := types.TypeString(tv.Type, shortQual) + "." + fld
+	for _, f := range c.allFuncs(c.Jen) {
+		if f.Name() == "init" && f.Parent() == nil {
+			continue
+		}
+		for _, b := range f.Blocks {
+			for _, in := range b.Instrs {
+				s, ok := in.(*ssa.Store)
+				if !ok {
+					continue
+				}
+				if s.Addr == ssa.Value(g) {
+					return nil
+				}
+				if fa, ok := s.Addr.(*ssa.FieldAddr); ok && fieldKey(fa) == want {
+					return nil
+				}
+			}
+		}
+	}
+	var val ast.Expr
+	for i, el := range cl.Elts {
+		if kv, ok := el.(*ast.KeyValueExpr); ok {
+			if id, ok := kv.Key.(*ast.Ident); ok && id.Name == fld {
+				val = kv.Value
+			}
+		} else if i < st.NumFields() && st.Field(i).Name() == fld {
+			val = el
+		}
+	}
+	if val == nil {
+		// not mentioned: the zero value
+		for i := 0; i < st.NumFields(); i++ {
+			if st.Field(i).Name() == fld {
+				out = zeroTerm(st.Field(i).Type())
+			}
+		}
+		if out != nil && !out.isConst() {
+			out = nil
+		}
+		return out
+	}
+	out = c.constExprTerm(val, 0)
+	if out != nil && !out.isConst() {
+		out = nil
+	}
+	return out
+}
